@@ -1,9 +1,11 @@
 #!/bin/bash
-# evaluates every /tmp/seed-CXX/seed produced by the sub-agents with the checks of the same property
+# usage: tools/seed_eval_all.sh <dir-prefix> <name-prefix> [ids...]   e.g. /tmp/seed2- agent2-
 ROOT=$(dirname $(dirname $(realpath "$0")))
+PFX=$1; NPFX=$2; shift 2
 for id in ${@:-C01 C02 C03 C04 C05 C06 C07 C08 C09 C10 C11 C12 C13 C14 C15 C16 C17 C18 C19 C20}; do
-  if [ -f /tmp/seed-$id/seed/patch.diff ]; then
+  if [ -f $PFX$id/seed/patch.diff ]; then
     echo "=== $id"
-    $ROOT/tools/seed_eval.sh /tmp/seed-$id/seed agent1-$id $id $id 2>&1 | grep -v "^WARNING"
+    case $id in C11) chk="C11 C15";; C03) chk="C03 C13";; *) chk=$id;; esac
+    $ROOT/tools/seed_eval.sh $PFX$id/seed $NPFX$id $id $chk 2>&1 | grep -v "^WARNING"
   fi
 done
